@@ -12,7 +12,7 @@ import RV.Driver.Util
     LOAD self <fields>        → decode + post-load fix-ups (address `self`), re-encode
     LOADI self <init> | <fields> → same, but starting from the decoded `init` stream (a fresh simulation)
     CMP  <fields1> | <fields2> → return value of reb_binary_diff at field level: `0` / `1`
-    DIFF <fields1> | <fields2> → the field list reb_binary_diff writes with output_option 0 (difference stream)
+    DIFF <fields1> | <fields2> → `<CMP result> F <fields>`: return value and the field list reb_binary_diff writes with output_option 0 (difference stream)
     IDS  <fields>             → ids the model expects in a stream whose decoded content is <fields>
 -/
 open RV RV.Driver RV.Persist RV.Gen.C05
@@ -100,7 +100,9 @@ def step (toks : List String) : String :=
     if compare special cmpSpecs table (parseFields a) (parseFields b) then "1" else "0"
   | "DIFF" :: rest =>
     let (a, b) := splitBar rest
-    "F " ++ showFields (diffReport special cmpSpecs table (parseFields a) (parseFields b))
+    let fa := parseFields a
+    let fb := parseFields b
+    (if compare special cmpSpecs table fa fb then "1" else "0") ++ " F " ++ showFields (diffReport special cmpSpecs table fa fb)
   | _ => "bad-op"
 
 def main : IO Unit := runLines step
